@@ -20,7 +20,7 @@ from sim.world import Session, classify, exc_signature, reference_world
 
 PROPERTY = "C15"
 SESSIONS = {"quick": 120, "thorough": 3000}
-BUDGET_S = {"quick": 80, "thorough": 1500}
+BUDGET_S = {"quick": 110, "thorough": 1500}
 CAP_S = {"quick": 240, "thorough": 480}
 KINDS = ("result", "parts", "parts", "optimized_name", "divisions", "npartitions", "len")
 RULE = ("one session = a pool of 8-20 related queries (one generated recipe, biased to sort/set_index/repartition-by-size/merge/groupby "
